@@ -29,7 +29,7 @@ def sect(l, *body):
 def exhaustive_cases(tier):
     """three contenders of different urgency on one lock; every environment sequence of
     bounded length over {step, cancel i, throw i, arrival of a more urgent contender}"""
-    depth = 3 if tier == "quick" else 5
+    depth = 3 if tier == "quick" else 4
     w = lambda: sect(0, ["log", 1], ["sleep0"], ["log", 2])
     urgent = sect(0, ["log", 9])
     alphabet = [["step"], ["do", ["cancel", 1]], ["do", ["cancel", 2]], ["do", ["throw", 1, ["interrupt", 1]]],
@@ -46,7 +46,7 @@ def exhaustive_cases(tier):
 
 def gen(rng, tier):
     yield from exhaustive_cases(tier)
-    for _ in range(350 if tier == "quick" else 8000):
+    for _ in range(350 if tier == "quick" else 2500):
         yield G.gen_case(rng, CFG)
 
 
